@@ -166,6 +166,18 @@ class Writer:
         return self.E("BinaryDataEncoding", None, self.E("SizeInBits", None, inner))
 
     # -- types, parameters, containers -----------------------------------------------------------
+    @staticmethod
+    def enum_codec(enc):
+        """The text of a string-encoded enumeration key: its bytes read in the codec the field is decoded with."""
+        if enc[0] != "str":
+            return "utf-8"
+        name = uS(enc[1])
+        codec = {"US-ASCII": "ascii", "ISO-8859-1": "latin-1", "Windows-1252": "cp1252"}.get(name, name.lower())
+        if name in ("UTF-16", "UTF-32"):
+            bo = uS(enc[9]) if len(enc) > 9 and enc[9] != "-" else "mostSignificantByteFirst"
+            codec += "-le" if bo == "leastSignificantByteFirst" else "-be"
+        return codec
+
     def ptype(self, t, unit=None):
         name, kind, enc = uS(t[1]), t[2], t[3]
         unit_el = self.E("UnitSet", None, self.E("Unit", text=unit)) if unit is not None else None
@@ -173,7 +185,8 @@ class Writer:
             return self.E("BooleanParameterType", {"name": name}, unit_el, self.encoding(enc))
         if kind != "plain":
             lst = self.E("EnumerationList", None, *[
-                self.E("Enumeration", {"value": (uV(k).decode() if k[0] == "x" else self.num(k)), "label": uS(v)})
+                self.E("Enumeration", {"value": (uV(k).decode(self.enum_codec(enc)) if k[0] == "x" else self.num(k)),
+                                       "label": uS(v)})
                 for k, v in kind[1:]])
             return self.E("EnumeratedParameterType", {"name": name}, unit_el, self.encoding(enc), lst)
         tag = {"int": "IntegerParameterType", "float": "FloatParameterType", "str": "StringParameterType",
